@@ -185,6 +185,30 @@ def run_rules(ctx, cid, n_years):
                 e = exp[k.replace("adj-", "")]
                 if gen.day_of(v) != e or v.day_of_week != W or v.calendar is not cal:
                     ctx.V(f"C16:navigation:{k}", f"{cid} {x!r}.{k}({W.name}) = {v!r} (day {gen.day_of(v)}), model day {e}", dict(case, w=w), gen.day_of(v), e)
+    # ... and within a week of the calendar's first and last day: an answer inside the range must be returned, one outside it must raise
+    from pyoda_time import DateAdjusters
+    for a in list(range(lo, lo + 8)) + list(range(hi - 7, hi + 1)):
+        x = gen.date_of(a, cal); d0 = dow_of(a)
+        case = {"kind": "nav-edge", "cal": cid, "d": a}
+        ctx.key((cid, "nav-edge", a - lo if a - lo < 8 else a - hi))
+        for w in range(1, 8):
+            W = IsoDayOfWeek(w)
+            nx = (w - d0 - 1) % 7 + 1; pv = (d0 - w - 1) % 7 + 1
+            for k, e, fn in (("next", a + nx, lambda: x.next(W)), ("previous", a - pv, lambda: x.previous(W)),
+                             ("next_or_same", a + (w - d0) % 7, lambda: DateAdjusters.next_or_same(W)(x)), ("previous_or_same", a - (d0 - w) % 7, lambda: DateAdjusters.previous_or_same(W)(x)),
+                             ("adj-next", a + nx, lambda: DateAdjusters.next(W)(x)), ("adj-previous", a - pv, lambda: DateAdjusters.previous(W)(x))):
+                ctx.ev(); ctx.count("navigation")
+                try:
+                    v = fn()
+                except Exception as ex:  # noqa: BLE001
+                    ctx.exc(ex)
+                    if lo <= e <= hi:
+                        ctx.V(f"C16:navigation-edge-raised:{k}", f"{cid} {x!r} (day {a}; calendar range [{lo},{hi}]).{k}({W.name}) raised {ex!r}; the answer, day {e}, is inside the calendar", dict(case, w=w), repr(ex), e)
+                    continue
+                if not lo <= e <= hi:
+                    ctx.V(f"C16:navigation-edge-returned:{k}", f"{cid} {x!r}.{k}({W.name}) returned {v!r}; the answer (day {e}) lies outside the calendar's range and must be refused", dict(case, w=w), repr(v), e)
+                elif gen.day_of(v) != e or v.day_of_week != W or v.calendar is not cal:
+                    ctx.V(f"C16:navigation:{k}", f"{cid} {x!r}.{k}({W.name}) = {v!r} (day {gen.day_of(v)}), model day {e}", dict(case, w=w), gen.day_of(v), e)
     ctx.counters.setdefault("iso_vs_stdlib", 0); ctx.counters.setdefault("nth_weekday", 0)
 
 
